@@ -367,6 +367,22 @@ def judge(sc: Dict[str, Any], res: Dict[str, Any]):
         if sc.get("kill_delay") is None and n_after > res["retries"] + 3:
             viol.append({"clause": "c:too-many-kernel-passes-after-notification", "passes_after_T": n_after,
                          "retries": res["retries"]})
+        # (d) it does not stop on its own before an execution that began after the last output has succeeded, unless
+        # its retries are used up: every kernel pass that started with the producers finished and did not end in a
+        # successful execution (nothing to consume, failed execution, failed submission) uses one retry.  A pass
+        # that straddles the notification is counted as an attempt too (lenient by one pass).
+        if sc.get("kill_delay") is None and (launches or res.get("consume")):
+            cnt["clause_d_checked"] = cnt.get("clause_d_checked", 0) + 1
+            ok_after_L = any(not l.get("launch_error") and exits.get(l["exec"], {}).get("reason") == "Success"
+                             and (L is None or l["seq"] > L) for l in launches)
+            pexit = {e["n"]: e["seq"] for e in evs if e["kind"] == "kernel.exit" and e["comp"] == obs}
+            attempts = [p for p in passes if not p.get("last") and (p["seq"] > T or pexit.get(p["n"], 1 << 60) > T)]
+            if not ok_after_L:
+                cnt["clause_d_no_success_after_last_output"] = cnt.get("clause_d_no_success_after_last_output", 0) + 1
+                if len(attempts) < res["retries"] + 1:
+                    viol.append({"clause": "d:stopped-before-retries-used-up-without-successful-final-execution",
+                                 "attempts_after_T": len(attempts), "retries": res["retries"], "T": T, "last_output_seq": L,
+                                 "launches": [{k: l.get(k) for k in ("seq", "exec", "launch_error")} for l in launches]})
     return viol, cnt
 
 
